@@ -16,15 +16,15 @@ theorem get?_set (m : RankMap) (k v : Bytes) (n : Nat) :
     by_cases hk : k' = k
     · subst hk
       by_cases h : k' = v
-      · simp [RankMap.set, RankMap.get?, List.find?_cons, h]
+      · simp [RankMap.set, RankMap.get?, h]
       · have hb : (k' == v) = false := by simpa using h
-        simp [RankMap.set, RankMap.get?, List.find?_cons, h, hb]
+        simp [RankMap.set, RankMap.get?, h, hb]
     · by_cases h : k' = v
       · subst h
         have hkv : ¬ k = k' := fun e => hk e.symm
-        simp [RankMap.set, RankMap.get?, List.find?_cons, hk, hkv]
+        simp [RankMap.set, RankMap.get?, hk, hkv]
       · have hb : (k' == v) = false := by simpa using h
-        simp [RankMap.set, RankMap.get?, List.find?_cons, hk, h, hb, ih]
+        simp [RankMap.set, RankMap.get?, hk, h, hb, ih]
 
 /-- Index of the LAST occurrence of `v` in `l`. -/
 def lastIdx? : List Bytes → Bytes → Option Nat
